@@ -1,5 +1,6 @@
 import TpmVerif.Crypto.Sha
 import TpmVerif.Crypto.Aes
+import TpmVerif.Crypto.Asym
 /-!
   C13 — digests of sequences equal the one-shot hash for every chunking; known-answer tests tie the Lean
   reference functions to the standards (labelled as tests: they are finite).
@@ -335,11 +336,199 @@ theorem cfb_roundtrip (E : Bytes → Bytes) (hE : ∀ x, (E x).length = 16) (iv 
     rw [this, dec_enc_chunks E hE _ iv (chunks16_le _ pt), chunks16_flatten _ pt hfuel]; simp
   simpa [pad16] using h2
 
+
+/-! ### The same for every block size (TDES: 8 bytes, Camellia: 16 bytes) -/
+
+def encChunksN (n : Nat) (E : Bytes → Bytes) : Bytes → List Bytes → List Bytes
+  | _, [] => []
+  | iv, b :: bs => xorB b (E iv) :: encChunksN n E (padN n (xorB b (E iv))) bs
+def decChunksN (n : Nat) (E : Bytes → Bytes) : Bytes → List Bytes → List Bytes
+  | _, [] => []
+  | iv, c :: cs => xorB c (E iv) :: decChunksN n E (padN n c) cs
+
+theorem enc_foldN (n : Nat) (E : Bytes → Bytes) : ∀ (cs : List Bytes) (acc iv : Bytes),
+    (cs.foldl (fun (st : Bytes × Bytes) blk => (st.1 ++ xorB blk (E st.2), padN n (xorB blk (E st.2)))) (acc, iv)).1 = acc ++ (encChunksN n E iv cs).flatten := by
+  intro cs
+  induction cs with
+  | nil => intro acc iv; simp [encChunksN]
+  | cons b bs ih => intro acc iv; simp only [List.foldl, encChunksN, List.flatten_cons]; rw [ih]; simp [List.append_assoc]
+
+theorem dec_foldN (n : Nat) (E : Bytes → Bytes) : ∀ (cs : List Bytes) (acc iv : Bytes),
+    (cs.foldl (fun (st : Bytes × Bytes) blk => (st.1 ++ xorB blk (E st.2), padN n blk)) (acc, iv)).1 = acc ++ (decChunksN n E iv cs).flatten := by
+  intro cs
+  induction cs with
+  | nil => intro acc iv; simp [decChunksN]
+  | cons b bs ih => intro acc iv; simp only [List.foldl, decChunksN, List.flatten_cons]; rw [ih]; simp [List.append_assoc]
+
+theorem dec_enc_chunksN (n : Nat) (E : Bytes → Bytes) (hE : ∀ x, (E x).length = n) : ∀ (bs : List Bytes) (iv : Bytes),
+    (∀ b ∈ bs, b.length ≤ n) → decChunksN n E iv (encChunksN n E iv bs) = bs := by
+  intro bs
+  induction bs with
+  | nil => intro iv _; rfl
+  | cons b rest ih =>
+    intro iv hb
+    simp only [encChunksN, decChunksN, List.cons.injEq]
+    exact ⟨xorB_involution b (E iv) (by rw [hE]; exact hb b (by simp)), ih _ (fun x hx => hb x (by simp [hx]))⟩
+
+theorem chunksN_le (n : Nat) : ∀ (fuel : Nat) (bs : Bytes), ∀ b ∈ chunksN n bs fuel, b.length ≤ n := by
+  intro fuel
+  induction fuel with
+  | zero => intro bs b hb; simp [chunksN] at hb
+  | succ k ih =>
+    intro bs b hb
+    unfold chunksN at hb
+    by_cases he : bs.isEmpty = true
+    · simp [he] at hb
+    · simp only [he, Bool.false_eq_true, if_false, List.mem_cons] at hb
+      rcases hb with h | h
+      · subst h; simp [List.length_take]; omega
+      · exact ih _ b h
+
+theorem chunksN_flatten (n : Nat) : ∀ (fuel : Nat) (bs : Bytes), bs.length ≤ fuel * n → (chunksN n bs fuel).flatten = bs := by
+  intro fuel
+  induction fuel with
+  | zero => intro bs h; have : bs = [] := List.eq_nil_of_length_eq_zero (by omega); subst this; rfl
+  | succ k ih =>
+    intro bs h
+    unfold chunksN
+    by_cases he : bs.isEmpty = true
+    · have : bs = [] := by simpa using he
+      subst this; simp
+    · simp only [he, Bool.false_eq_true, if_false, List.flatten_cons]
+      rw [ih (bs.drop n) (by rw [List.length_drop]; rw [Nat.succ_mul] at h; omega)]
+      exact List.take_append_drop n bs
+
+theorem chunksN_nil (n : Nat) : ∀ (fuel : Nat), chunksN n [] fuel = [] := by
+  intro fuel; cases fuel with
+  | zero => rfl
+  | succ k => unfold chunksN; rfl
+
+theorem rechunkN (n : Nat) (hn : 0 < n) (E : Bytes → Bytes) (hE : ∀ x, (E x).length = n) : ∀ (fuel : Nat) (pt iv : Bytes),
+    chunksN n ((encChunksN n E iv (chunksN n pt fuel)).flatten) fuel = encChunksN n E iv (chunksN n pt fuel) := by
+  intro fuel
+  induction fuel with
+  | zero => intro pt iv; simp [chunksN, encChunksN]
+  | succ k ih =>
+    intro pt iv
+    by_cases he : pt.isEmpty = true
+    · have : chunksN n pt (k + 1) = [] := by unfold chunksN; simp [he]
+      rw [this]; simp [encChunksN, chunksN]
+    · have hne : pt ≠ [] := by simpa using he
+      have hc : chunksN n pt (k + 1) = pt.take n :: chunksN n (pt.drop n) k := by
+        conv => lhs; unfold chunksN
+        simp [he]
+      rw [hc]
+      simp only [encChunksN, List.flatten_cons]
+      generalize hc0 : xorB (pt.take n) (E iv) = c0
+      have hl0 : c0.length = min pt.length n := by rw [← hc0, xorB_length, hE, List.length_take]; omega
+      have hpos : 0 < pt.length := List.length_pos_iff.mpr hne
+      have hc0ne : (c0 ++ (encChunksN n E (padN n c0) (chunksN n (pt.drop n) k)).flatten).isEmpty = false := by
+        have : c0 ≠ [] := by intro h; rw [h] at hl0; simp at hl0; omega
+        cases c0 with
+        | nil => exact absurd rfl this
+        | cons x xs => rfl
+      conv => lhs; unfold chunksN
+      simp only [hc0ne, Bool.false_eq_true, if_false]
+      by_cases hfull : n ≤ pt.length
+      · have h16 : c0.length = n := by omega
+        rw [List.take_append_of_le_length (by omega), List.drop_append_of_le_length (by omega)]
+        rw [List.take_of_length_le (by omega), List.drop_of_length_le (by omega), List.nil_append]
+        rw [ih]
+      · have hshort : pt.length < n := by omega
+        have hd : pt.drop n = [] := List.drop_of_length_le (by omega)
+        rw [hd, chunksN_nil]
+        simp only [encChunksN, List.flatten_nil, List.append_nil]
+        rw [List.take_of_length_le (by omega), List.drop_of_length_le (by omega), chunksN_nil]
+
+theorem encChunksN_flatten_length (n : Nat) (E : Bytes → Bytes) (hE : ∀ x, (E x).length = n) : ∀ (cs : List Bytes) (iv : Bytes),
+    (∀ b ∈ cs, b.length ≤ n) → (encChunksN n E iv cs).flatten.length = cs.flatten.length := by
+  intro cs
+  induction cs with
+  | nil => intro iv _; rfl
+  | cons b rest ih =>
+    intro iv hb
+    simp only [encChunksN, List.flatten_cons, List.length_append]
+    rw [ih _ (fun x hx => hb x (by simp [hx])), xorB_length, hE]
+    have := hb b (by simp); omega
+
+/-- **CFB decryption inverts CFB encryption for every block size n > 0, every block function with n-byte output, every IV
+    and every length** — the TDES (n = 8) and Camellia (n = 16) cases of EncryptDecrypt are instances -/
+theorem cfb_roundtripN (n : Nat) (hn : 0 < n) (E : Bytes → Bytes) (hE : ∀ x, (E x).length = n) (iv pt : Bytes) :
+    (cfbDecryptN n E iv (cfbEncryptN n E iv pt).1).1 = pt := by
+  have henc : (cfbEncryptN n E iv pt).1 = (encChunksN n E iv (chunksN n pt (pt.length + 1))).flatten := by
+    unfold cfbEncryptN
+    have := enc_foldN n E (chunksN n pt (pt.length + 1)) [] iv
+    simpa using this
+  have hfuel : pt.length ≤ (pt.length + 1) * n := Nat.le_trans (Nat.le_succ _) (Nat.le_mul_of_pos_right _ hn)
+  have hlen : (cfbEncryptN n E iv pt).1.length = pt.length := by
+    rw [henc, encChunksN_flatten_length n E hE _ iv (chunksN_le n _ pt), chunksN_flatten n _ pt hfuel]
+  unfold cfbDecryptN
+  rw [hlen, henc, rechunkN n hn E hE]
+  have := dec_foldN n E (encChunksN n E iv (chunksN n pt (pt.length + 1))) [] iv
+  rw [this, dec_enc_chunksN n E hE _ iv (chunksN_le n _ pt), chunksN_flatten n _ pt hfuel]; simp
+
+/-- the ciphertext has the length of the plaintext (no padding in CFB) -/
+theorem cfbN_length (n : Nat) (hn : 0 < n) (E : Bytes → Bytes) (hE : ∀ x, (E x).length = n) (iv pt : Bytes) :
+    (cfbEncryptN n E iv pt).1.length = pt.length := by
+  have henc : (cfbEncryptN n E iv pt).1 = (encChunksN n E iv (chunksN n pt (pt.length + 1))).flatten := by
+    unfold cfbEncryptN
+    have := enc_foldN n E (chunksN n pt (pt.length + 1)) [] iv
+    simpa using this
+  have hfuel : pt.length ≤ (pt.length + 1) * n := Nat.le_trans (Nat.le_succ _) (Nat.le_mul_of_pos_right _ hn)
+  rw [henc, encChunksN_flatten_length n E hE _ iv (chunksN_le n _ pt), chunksN_flatten n _ pt hfuel]
+
+/-! ### PKCS #1 v1.5 encryption padding: decoding inverts encoding for every message and every admissible padding string -/
+
+def rsaesEncode (ps m : Bytes) : Bytes := 0 :: 2 :: (ps ++ 0 :: m)
+
+theorem takeWhile_nonzero_append (ps rest : Bytes) (hps : ∀ x ∈ ps, x ≠ 0) :
+    (ps ++ 0 :: rest).takeWhile (· != 0) = ps := by
+  induction ps with
+  | nil => simp
+  | cons x xs ih =>
+    have hx : x ≠ 0 := hps x (by simp)
+    have : (x != 0) = true := by simpa using hx
+    simp only [List.cons_append, List.takeWhile_cons, this, if_true, List.cons.injEq, true_and]
+    exact ih (fun y hy => hps y (by simp [hy]))
+
+/-- **`rsaesDecode (rsaesEncode ps m) = some m`** for every message `m` and every padding string of at least eight
+    nonzero bytes (what RSA_Encrypt(RSAES) must produce and RSA_Decrypt(RSAES) must accept) -/
+theorem rsaes_decode_encode (ps m : Bytes) (hps : ∀ x ∈ ps, x ≠ 0) (h8 : 8 ≤ ps.length) :
+    rsaesDecode (rsaesEncode ps m) = some m := by
+  unfold rsaesEncode rsaesDecode
+  simp only [takeWhile_nonzero_append ps m hps]
+  have h1 : ¬ (ps.length < 8 ∨ ps.length = (ps ++ 0 :: m).length) := by
+    simp only [List.length_append, List.length_cons]; omega
+  simp only [h1, if_false]
+  simp [List.drop_append]
+
+/-- a padding string shorter than eight bytes is refused -/
+theorem rsaes_short_padding_refused (ps m : Bytes) (hps : ∀ x ∈ ps, x ≠ 0) (h8 : ps.length < 8) :
+    rsaesDecode (rsaesEncode ps m) = none := by
+  unfold rsaesEncode rsaesDecode
+  simp only [takeWhile_nonzero_append ps m hps]
+  simp [h8]
+
+/-- an encoded message that does not start with 00 02 is refused -/
+theorem rsaes_bad_header_refused (x y : UInt8) (r : Bytes) (h : ¬ (x = 0 ∧ y = 2)) : rsaesDecode (x :: y :: r) = none := by
+  unfold rsaesDecode
+  split
+  · rename_i r' heq
+    simp only [List.cons.injEq] at heq
+    exact absurd ⟨heq.1, heq.2.1⟩ h
+  · rfl
+
+example : rsaesDecode (rsaesEncode [1, 2, 3, 4, 5, 6, 7, 8] [0, 9, 0]) = some [0, 9, 0] := by decide
+
 /-! ### Known-answer tests (finite: these are tests, not the unbounded claim) -/
 -- The FIPS 180-4 "abc" vectors, the FIPS 197 appendix C vectors and a P-256 sanity check are evaluated by
 -- `lake env lean --run`-free `#eval`s in the build of the driver; here as kernel-checked facts for the small ones:
 example : (P256.mul P256.n (some (P256.gx, P256.gy))).isNone = true := by decide +kernel
 example : P256.onCurve P256.gx P256.gy = true := by decide +kernel
 example : modPow 4 13 497 = 445 := by decide +kernel
+-- every named curve: the generator is on the curve
+example : curves.all (fun c => c.onCurve c.gx c.gy) = true := by decide +kernel
+-- the modular inverse really is one, at a few points of each field
+example : curves.all (fun c => [2, 3, c.gx, c.gy, c.p - 1].all (fun x => x * Curve.inv x c.p % c.p == 1)) = true := by decide +kernel
 
 end TpmVerif.Props.C13
